@@ -133,7 +133,7 @@ Inductive prim : st -> st -> Prop :=
 | p_shutreq_clear s : prim s (set_shutreq false s)
 | p_sysshut s a : wq s = [] -> writable s = false -> prim s (ev (ESysShut a) s)
 | p_set_shut s : writable s = false -> prim s (set_shut true s)
-| p_shutcb s c : wq s = [] -> pq s = [] -> writable s = false -> prim s (ev (EShutCb c) s)
+| p_shutcb s c : wq s = [] -> cq s = [] -> pq s = [] -> writable s = false -> prim s (ev (EShutCb c) s)
 | p_flush s : prim s (flush s)
 | p_closecb s : prim s (ev ECloseCb s)
 | p_q s : prim s (ev (EQ (wqs s)) s).
@@ -353,7 +353,7 @@ Qed.
 
 (* what an API call made from anywhere leaves alone *)
 Definition aframe (s s' : st) : Prop :=
-  pq s' = pq s /\ (fdopen s = false -> fdopen s' = false /\ wq s' = wq s).
+  pq s' = pq s /\ (fdopen s = false -> fdopen s' = false /\ wq s' = wq s /\ cq s' = cq s).
 
 Lemma api_write_sim s bufs :
   steps s (api_write s bufs) /\ aframe s (api_write s bufs).
@@ -458,7 +458,7 @@ Qed.
 Lemma aframe_trans s1 s2 s3 : aframe s1 s2 -> aframe s2 s3 -> aframe s1 s3.
 Proof.
   unfold aframe. intros [A1 A2] [B1 B2]. split; [congruence|].
-  intros H. destruct (A2 H) as [C1 C2]. destruct (B2 C1) as [D1 D2]. split; congruence.
+  intros H. destruct (A2 H) as (C1 & C2 & C3). destruct (B2 C1) as (D1 & D2 & D3). repeat split; congruence.
 Qed.
 
 Lemma apis_sim os : forall s, steps s (apis s os) /\ aframe s (apis s os).
@@ -499,10 +499,11 @@ Qed.
 
 Lemma cb_loop_sim l : forall s, pq s = l ->
   steps s (cb_loop beh l s) /\ pq (cb_loop beh l s) = [] /\
-  (fdopen s = false -> fdopen (cb_loop beh l s) = false /\ wq (cb_loop beh l s) = wq s).
+  (fdopen s = false -> fdopen (cb_loop beh l s) = false /\ wq (cb_loop beh l s) = wq s /\
+                       cq (cb_loop beh l s) = cq s).
 Proof.
   induction l as [|r rest IH]; intros s Hp; cbn [cb_loop].
-  - repeat split; auto. constructor.
+  - split; [constructor | split; auto].
   - pose proof (p_cb s r rest Hp) as P. cbv zeta.
     match type of P with prim _ ?x => set (s3 := x) in * end.
     destruct (run_cb_sim s3) as [A [B1 B2]].
@@ -511,32 +512,33 @@ Proof.
     split; [|split]; auto.
     + eapply st_step; [exact P|]. eapply steps_trans; eauto.
     + intros Hf. assert (Hf3 : fdopen s3 = false) by (unfold s3; destruct (r_freed r); exact Hf).
-      destruct (B2 Hf3) as [F1 F2]. destruct (E F1) as [G1 G2]. split; auto.
-      rewrite G2, F2. unfold s3; destruct (r_freed r); reflexivity.
+      destruct (B2 Hf3) as (F1 & F2 & F3). destruct (E F1) as (G1 & G2 & G3). split; [auto|].
+      rewrite G2, F2, G3, F3. unfold s3; destruct (r_freed r); split; reflexivity.
 Qed.
 
 Lemma write_callbacks_sim s : pq s = [] ->
   steps s (write_callbacks beh s) /\ pq (write_callbacks beh s) = [] /\
-  (fdopen s = false -> fdopen (write_callbacks beh s) = false /\ wq (write_callbacks beh s) = wq s).
+  (fdopen s = false -> fdopen (write_callbacks beh s) = false /\ wq (write_callbacks beh s) = wq s /\
+                       cq (write_callbacks beh s) = []).
 Proof.
   intros Hp. unfold write_callbacks. destruct (cq s) as [|r l] eqn:Hc.
-  - repeat split; auto. constructor.
+  - split; [constructor | split; auto].
   - pose proof (p_take s Hp) as P. rewrite Hc in P.
     destruct (cb_loop_sim (r :: l) (set_pq (r :: l) (set_cq [] s)) eq_refl) as (A & B & C).
     split; [|split]; auto. eapply st_step; eauto.
 Qed.
 
-Lemma drain_sim s : Inv0 s -> wq s = [] -> pq s = [] ->
+Lemma drain_sim s : Inv0 s -> wq s = [] -> cq s = [] -> pq s = [] ->
   steps s (drain beh s) /\ pq (drain beh s) = [].
 Proof.
-  intros [I1 I2] Hq Hp. unfold drain.
+  intros [I1 I2] Hq Hcq Hp. unfold drain.
   set (s1 := if closing s then s else set_armed false s).
   assert (S1 : steps s s1).
   { unfold s1. destruct (closing s); [constructor | apply steps_one, p_silent; sc]. }
-  assert (E1 : wq s1 = [] /\ pq s1 = [] /\ shutreq s1 = shutreq s /\ writable s1 = writable s /\
+  assert (E1 : wq s1 = [] /\ cq s1 = [] /\ pq s1 = [] /\ shutreq s1 = shutreq s /\ writable s1 = writable s /\
                closing s1 = closing s /\ shut s1 = shut s).
   { unfold s1. destruct (closing s) eqn:Hcs; cbn; repeat split; auto. }
-  destruct E1 as (Hq1 & Hp1 & Esr & Ew & Ec & Esh).
+  destruct E1 as (Hq1 & Hc1 & Hp1 & Esr & Ew & Ec & Esh).
   destruct (shutreq s1) eqn:Hsr; cbn [negb].
   2: { split; auto. }
   assert (Hw1 : writable s1 = false) by (rewrite Ew; apply I1; congruence).
@@ -547,7 +549,7 @@ Proof.
   change (closing s2) with (closing s1).
   destruct (closing s1) eqn:Hcl.
   - set (s3 := ev (EShutCb UV_ECANCELED) s2).
-    assert (P3 : prim s2 s3) by (apply p_shutcb; [exact Hq1 | exact Hp1 | exact Hw1]).
+    assert (P3 : prim s2 s3) by (apply p_shutcb; [exact Hq1 | exact Hc1 | exact Hp1 | exact Hw1]).
     destruct (run_cb_sim s3) as [A [B _]]. split.
     + eapply steps_trans; [exact S1|]. eapply st_step; [exact P2|]. eapply st_step; [exact P3|]. exact A.
     + rewrite B. exact Hp1.
@@ -558,12 +560,12 @@ Proof.
     + set (s4 := set_shut true s3).
       assert (P4 : prim s3 s4) by (apply p_set_shut; auto).
       set (s5 := ev (EShutCb 0%Z) s4).
-      assert (P5 : prim s4 s5) by (apply p_shutcb; [exact Hq1 | exact Hp1 | exact Hw1]).
+      assert (P5 : prim s4 s5) by (apply p_shutcb; [exact Hq1 | exact Hc1 | exact Hp1 | exact Hw1]).
       destruct (run_cb_sim s5) as [A [B _]]. split.
       * eapply steps_trans; [exact S1|]. repeat (eapply st_step; [eassumption|]). exact A.
       * rewrite B. exact Hp1.
     + set (s5 := ev (EShutCb (shutans s2)) s3).
-      assert (P5 : prim s3 s5) by (apply p_shutcb; [exact Hq1 | exact Hp1 | exact Hw1]).
+      assert (P5 : prim s3 s5) by (apply p_shutcb; [exact Hq1 | exact Hc1 | exact Hp1 | exact Hw1]).
       destruct (run_cb_sim s5) as [A [B _]]. split.
       * eapply steps_trans; [exact S1|]. repeat (eapply st_step; [eassumption|]). exact A.
       * rewrite B. exact Hp1.
@@ -579,10 +581,11 @@ Proof.
   destruct (write_callbacks_sim s1 Hp1) as (B & Hp2 & _).
   set (s2 := write_callbacks beh s1) in *.
   assert (S2 : steps s s2) by eauto using steps_trans.
-  destruct (wq s2) eqn:Hq.
-  - destruct (drain_sim s2) as [C D]; auto. eapply Inv0_steps; eauto.
-    split; eauto using steps_trans.
-  - split; auto.
+  destruct (wq s2) eqn:Hq; [|split; auto].
+  destruct (cq s2) eqn:Hc; [|split; auto].
+  assert (I2 : Inv0 s2) by (eapply Inv0_steps; eauto).
+  destruct (drain_sim s2 I2 Hq Hc Hp2) as [C D].
+  split; eauto using steps_trans.
 Qed.
 
 Lemma destroy_sim s : Inv0 s -> closing s = true -> pq s = [] ->
@@ -596,10 +599,11 @@ Proof.
   assert (Hfd : fdopen s1 = false) by (destruct I as [_ I2]; apply I2 in Hc; apply Hc).
   assert (Hp1 : pq s1 = []) by exact Hp.
   destruct (write_callbacks_sim s1 Hp1) as (A & Hp2 & B).
-  destruct (B Hfd) as [_ Hq2].
+  destruct (B Hfd) as (_ & Hq2 & Hc2).
   set (s2 := write_callbacks beh s1) in *.
   assert (S2 : steps s s2) by (eapply st_step; [exact P0|]; eapply st_step; [exact P1|]; exact A).
-  destruct (drain_sim s2) as [C D]; auto. eapply Inv0_steps; eauto.
+  assert (I2 : Inv0 s2) by (eapply Inv0_steps; eauto).
+  destruct (drain_sim s2 I2 Hq2 Hc2 Hp2) as [C D].
   split.
   - eapply steps_trans; [exact S2|]. eapply steps_trans; [exact C|]. apply steps_one, p_closecb.
   - exact D.
@@ -1493,14 +1497,18 @@ Qed.
 Definition q_ret (e : event) : Prop :=
   match e with ERet _ c => c = UV_EPIPE \/ c = UV_EBADF | _ => True end.
 
+Definition q_after_cb (e : event) : Prop :=
+  match e with EChunk _ _ _ | ECb _ _ _ => False | ERet _ x => x <> 0%Z | _ => True end.
+
+Definition idle (s : st) : Prop := wq s = [] /\ cq s = [] /\ pq s = [].
+
 Record Inv4 (s : st) : Prop := {
   s_shut : In (EShut 0%Z) (tr s) -> writable s = false;
   s_ret : forall l1 l2, tr s = l1 ++ EShut 0%Z :: l2 -> Forall q_ret l1;
   s_sys : forall a, In (ESysShut a) (tr s) -> wq s = [] /\ writable s = false;
   s_nochunk : forall a l1 l2, tr s = l1 ++ ESysShut a :: l2 -> Forall no_chunk l1;
-  s_cb : forall c, In (EShutCb c) (tr s) -> wq s = [] /\ writable s = false;
-  s_cb_nochunk : forall c l1 l2, tr s = l1 ++ EShutCb c :: l2 ->
-                 Forall (fun e => no_chunk e /\ match e with ERet _ x => x <> 0%Z | _ => True end) l1
+  s_cb : forall c, In (EShutCb c) (tr s) -> idle s /\ writable s = false;
+  s_cb_after : forall c l1 l2, tr s = l1 ++ EShutCb c :: l2 -> Forall q_after_cb l1
 }.
 
 Lemma after_cons (Q : event -> Prop) X e t :
@@ -1518,45 +1526,52 @@ Proof.
   unfold check_before_write. destruct (fdopen s), (writable s); simpl; intros H; inversion H; auto.
 Qed.
 
-(* adding an event that is none of the ones Inv4 speaks about *)
-Definition inert (e : event) : Prop :=
-  match e with EShut _ | ESysShut _ | EShutCb _ | EChunk _ _ _ | ERet _ _ => False | _ => True end.
+Definition hold_ok (e X : event) : Prop :=
+  match X with
+  | EShut 0%Z => q_ret e
+  | ESysShut _ => no_chunk e
+  | EShutCb _ => q_after_cb e
+  | _ => True
+  end.
+
+Definition new_ok (s : st) (e : event) : Prop :=
+  match e with
+  | EShut 0%Z => writable s = false
+  | ESysShut _ => wq s = [] /\ writable s = false
+  | EShutCb _ => idle s /\ writable s = false
+  | _ => True
+  end.
 
 Lemma Inv4_event s e :
-  (forall X, In X (tr s) -> match X with
-                            | EShut 0%Z => q_ret e
-                            | ESysShut _ => no_chunk e
-                            | EShutCb _ => no_chunk e /\ match e with ERet _ x => x <> 0%Z | _ => True end
-                            | _ => True end) ->
-  (match e with
-   | EShut 0%Z => writable s = false
-   | ESysShut _ | EShutCb _ => wq s = [] /\ writable s = false
-   | _ => True end) ->
-  Inv4 s -> Inv4 (ev e s).
+  (forall X, In X (tr s) -> hold_ok e X) -> new_ok s e -> Inv4 s -> Inv4 (ev e s).
 Proof.
   intros Hold Hnew [A B C D E F]. constructor; cbn.
   - intros [H|H]; auto. subst e. exact Hnew.
   - apply after_cons; [exact B | intros H; apply (Hold _ H)].
   - intros a [H|H]; eauto. subst e. exact Hnew.
   - intros a. apply after_cons; [apply D | intros H; apply (Hold _ H)].
-  - intros c [H|H]; eauto. subst e. exact Hnew.
+  - intros c [H|H]; [subst e; exact Hnew | apply (E c H)].
   - intros c. apply after_cons; [apply F | intros H; apply (Hold _ H)].
 Qed.
+
+(* an event Inv4 does not speak about *)
+Definition inert (e : event) : Prop :=
+  match e with EShut _ | ESysShut _ | EShutCb _ | EChunk _ _ _ | ERet _ _ | ECb _ _ _ => False | _ => True end.
 
 Lemma Inv4_inert s e : inert e -> Inv4 s -> Inv4 (ev e s).
 Proof.
   intros Hi. apply Inv4_event.
-  - intros X _. destruct X as [| | | | | | z | | | |]; auto; try (destruct e; simpl in *; tauto).
+  - intros X _. unfold hold_ok. destruct X as [| | | | | | z | | | |]; auto; try (destruct e; simpl in *; tauto).
     destruct z; auto. destruct e; simpl in *; tauto.
   - destruct e; simpl in *; tauto.
 Qed.
 
-(* a state change that keeps the trace, does not make the stream writable and does not grow wq *)
+(* a state change that keeps the trace, does not make the stream writable and does not grow the queues *)
 Lemma Inv4_state s s' :
   tr s' = tr s -> (writable s = false -> writable s' = false) -> (wq s = [] -> wq s' = []) ->
-  Inv4 s -> Inv4 s'.
+  (idle s -> idle s') -> Inv4 s -> Inv4 s'.
 Proof.
-  intros Et Hw Hq [A B C D E F]. constructor; rewrite ?Et; auto.
+  intros Et Hw Hq Hi [A B C D E F]. constructor; rewrite ?Et; auto.
   - intros a H. destruct (C a H). auto.
   - intros c H. destruct (E c H). auto.
 Qed.
@@ -1570,26 +1585,34 @@ Proof.
   - intros c H. destruct (E c H) as [_ X]. rewrite X in Hw. discriminate.
 Qed.
 
+Ltac hold_cases X z a c := destruct X as [| | | | | | z | a | c | |]; unfold hold_ok; simpl; auto;
+                           [destruct z; simpl; auto | ..].
+
 Lemma Inv4_prim s s' : prim s s' -> Inv4 s -> Inv4 s'.
 Proof.
   intros P I. destruct P; unfold call0, finish_head, flush in *.
-  - destruct H as (E1 & _ & _ & _ & _ & E2 & _ & _ & _ & _ & E3).
-    apply (Inv4_state s); auto; congruence.
+  - destruct H as (E1 & E2 & E3 & _ & _ & E4 & _ & _ & _ & _ & E5).
+    apply (Inv4_state s); auto; try congruence. unfold idle. rewrite E1, E2, E3. auto.
   - (* chunk: impossible after shutdown(2) / the shutdown callback *)
     apply Inv4_event; [ | simpl; auto | ].
-    + intros X HX. cbn in HX. destruct X as [| | | | | | z | a | c | |]; simpl; auto.
-      * destruct z; simpl; auto.
+    + intros X HX. cbn in HX. hold_cases X z a c.
       * destruct I as [_ _ C _ _ _]. destruct (C a HX) as [Hq _]. rewrite Hq in H. discriminate.
-      * destruct I as [_ _ _ _ E _]. destruct (E c HX) as [Hq _]. rewrite Hq in H. discriminate.
-    + apply (Inv4_state s); auto. cbn. intros Hq. rewrite Hq in H. discriminate.
-  - apply (Inv4_state s); auto. cbn. intros Hq. rewrite Hq in H. discriminate.
-  - apply (Inv4_state s); auto. cbn. intros Hq. rewrite Hq in H. discriminate.
+      * destruct I as [_ _ _ _ E _]. destruct (E c HX) as [[Hq _] _]. rewrite Hq in H. discriminate.
+    + apply (Inv4_state s); auto; cbn.
+      * intros Hq. rewrite Hq in H. discriminate.
+      * intros [Hq _]. rewrite Hq in H. discriminate.
+  - apply (Inv4_state s); auto; cbn.
+    + intros Hq. rewrite Hq in H. discriminate.
+    + intros [Hq _]. rewrite Hq in H. discriminate.
+  - apply (Inv4_state s); auto; cbn.
+    + intros Hq. rewrite Hq in H. discriminate.
+    + intros [Hq _]. rewrite Hq in H. discriminate.
   - (* uv_write refused *)
     apply Inv4_event; [ | simpl; auto | ].
     + intros X HX. cbn in HX. destruct HX as [HX|HX]; [subst X; simpl; auto|].
-      destruct X as [| | | | | | z | a | c | |]; simpl; auto.
-      * destruct z; simpl; auto. apply (check_some_code _ _ H).
-      * split; auto. pose proof (check_some_neg _ _ H). lia.
+      hold_cases X z a c.
+      * apply (check_some_code _ _ H).
+      * pose proof (check_some_neg _ _ H). lia.
     + apply Inv4_inert; simpl; auto. apply (Inv4_state s); auto.
   - (* enqueue: the stream is writable, so no shutdown so far *)
     destruct (check_none _ H) as [_ Hw].
@@ -1597,36 +1620,45 @@ Proof.
     apply Inv4_inert; simpl; auto. apply (Inv4_state s); auto.
   - (* uv_write returned 0 *)
     apply Inv4_event; [ | simpl; auto | exact I].
-    intros X HX. destruct X as [| | | | | | z | a | c | |]; simpl; auto.
-    + destruct z; simpl; auto. destruct I as [A _ _ _ _ _]. rewrite (A HX) in H. discriminate.
+    intros X HX. hold_cases X z a c.
+    + destruct I as [A _ _ _ _ _]. rewrite (A HX) in H. discriminate.
     + destruct I as [_ _ _ _ E _]. destruct (E c HX) as [_ Hw]. rewrite Hw in H. discriminate.
   - apply Inv4_inert; simpl; auto. apply Inv4_inert; simpl; auto. apply (Inv4_state s); auto.
   - (* try_write wrote *)
     apply Inv4_inert; simpl; auto.
     apply Inv4_event; [ | simpl; auto | ].
     + intros X HX. cbn in HX. destruct HX as [HX|HX]; [subst X; simpl; auto|].
-      destruct X as [| | | | | | z | a | c | |]; simpl; auto.
-      * destruct z; simpl; auto.
+      hold_cases X z a c.
       * destruct I as [_ _ C _ _ _]. destruct (C a HX) as [_ Hw]. rewrite Hw in H0. discriminate.
       * destruct I as [_ _ _ _ E _]. destruct (E c HX) as [_ Hw]. rewrite Hw in H0. discriminate.
     + apply Inv4_inert; simpl; auto. apply (Inv4_state s); auto.
   - apply Inv4_event; [ | simpl; auto | exact I].
-    intros X HX. destruct X as [| | | | | | z | a | c | |]; simpl; auto. destruct z; simpl; auto.
+    intros X HX. hold_cases X z a c.
   - apply (Inv4_state s); auto.
-  - apply Inv4_event; [ | simpl; auto | exact I].
-    intros X HX. destruct X as [| | | | | | z | a | c | |]; simpl; auto. destruct z; simpl; auto.
+  - apply Inv4_event; [ | exact H | exact I].
+    intros X HX. hold_cases X z a c.
   - apply (Inv4_state s); auto.
+  - (* take *)
+    apply (Inv4_state s); auto. unfold idle; cbn. intros (A & B & C). rewrite B. auto.
+  - (* write callback: impossible after the shutdown callback *)
+    assert (Hni : idle s -> False) by (intros (_ & _ & Hp); rewrite Hp in H; discriminate).
+    destruct (r_freed r).
+    + apply Inv4_event; [ | simpl; auto | ].
+      * intros X HX. cbn in HX. hold_cases X z a c.
+        destruct I as [_ _ _ _ E _]. destruct (E c HX) as [Hi _]. auto.
+      * apply (Inv4_state s); auto. intros Hi. destruct (Hni Hi).
+    + apply Inv4_event; [ | simpl; auto | ].
+      * intros X HX. cbn in HX. hold_cases X z a c.
+        destruct I as [_ _ _ _ E _]. destruct (E c HX) as [Hi _]. auto.
+      * apply (Inv4_state s); auto. intros Hi. destruct (Hni Hi).
   - apply (Inv4_state s); auto.
-  - destruct (r_freed r).
-    + apply Inv4_inert; simpl; auto. apply (Inv4_state s); auto.
-    + apply Inv4_inert; simpl; auto. apply (Inv4_state s); auto.
+  - apply Inv4_event; [ | split; auto | exact I].
+    intros X HX. hold_cases X z a' c.
   - apply (Inv4_state s); auto.
-  - apply Inv4_event; [ | simpl; auto | exact I].
-    intros X HX. destruct X as [| | | | | | z | a' | c | |]; simpl; auto. destruct z; simpl; auto.
-  - apply (Inv4_state s); auto.
-  - apply Inv4_event; [ | simpl; auto | exact I].
-    intros X HX. destruct X as [| | | | | | z | a' | c' | |]; simpl; auto. destruct z; simpl; auto.
-  - apply (Inv4_state s); auto.
+  - apply Inv4_event; [ | split; [repeat split|]; auto | exact I].
+    intros X HX. hold_cases X z a' c'.
+  - (* flush *)
+    apply (Inv4_state s); auto. unfold idle; cbn. intros (A & B & C). rewrite A, B. auto.
   - apply Inv4_inert; simpl; auto.
   - apply Inv4_inert; simpl; auto.
 Qed.
@@ -1638,4 +1670,271 @@ Lemma Inv4_init blk o sa pw : Inv4 (init blk o sa pw).
 Proof.
   constructor; unfold init; cbn; try tauto;
     intros; match goal with H : [] = ?l ++ _ :: _ |- _ => destruct l; discriminate end.
+Qed.
+
+Lemma rev_split {A} (t : list A) l1 x l2 : rev t = l1 ++ x :: l2 -> t = rev l2 ++ x :: rev l1.
+Proof.
+  intros H. apply (f_equal (@rev A)) in H. rewrite rev_involutive, rev_app_distr in H.
+  simpl in H. rewrite <- app_assoc in H. exact H.
+Qed.
+
+Section Final2.
+Variable beh : nat -> list op.
+Variables (blk : bool) (o : list answer) (sa : Z) (pw : list bool) (ops : list op).
+Let s := exec beh (init blk o sa pw) ops.
+
+Lemma final_inv4 : Inv4 s.
+Proof.
+  destruct (exec_steps beh blk o sa pw ops) as [S _]. eapply Inv4_steps; eauto. apply Inv4_init.
+Qed.
+
+Lemma cb_ids_nil l : Forall q_after_cb l -> cb_ids l = [].
+Proof. induction 1 as [|e l He _ IH]; simpl; auto. destruct e; simpl in *; auto. tauto. Qed.
+
+(* C05_shutdown_last *)
+Theorem shutdown_last :
+  (forall l1 l2, trace s = l1 ++ EShut 0%Z :: l2 ->
+     forall id c, In (ERet id c) l2 -> c = UV_EPIPE \/ c = UV_EBADF) /\
+  (forall a l1 l2, trace s = l1 ++ ESysShut a :: l2 -> forall i off n, ~ In (EChunk i off n) l2) /\
+  (forall a, In (ESysShut a) (trace s) -> wq s = []) /\
+  (forall c l1 l2, trace s = l1 ++ EShutCb c :: l2 ->
+     cb_ids l2 = [] /\ (forall i off n, ~ In (EChunk i off n) l2) /\ (forall id, ~ In (ERet id 0%Z) l2)).
+Proof.
+  destruct final_inv4 as [A B C D E F]. unfold trace. split; [|split; [|split]].
+  - intros l1 l2 H id c Hin. apply rev_split in H. apply B in H. rewrite Forall_forall in H.
+    apply in_rev in Hin. apply (H _ Hin).
+  - intros a l1 l2 H i off n Hin. apply rev_split in H. apply D in H. rewrite Forall_forall in H.
+    apply in_rev in Hin. apply (H _ Hin).
+  - intros a H. apply in_rev in H. apply (C a H).
+  - intros c l1 l2 H. apply rev_split in H. apply F in H. split; [|split].
+    + apply Forall_rev in H. rewrite rev_involutive in H. apply cb_ids_nil; auto.
+    + intros i off n Hin. rewrite Forall_forall in H. apply in_rev in Hin. apply (H _ Hin).
+    + intros id Hin. rewrite Forall_forall in H. apply in_rev in Hin. apply (H _ Hin). reflexivity.
+Qed.
+
+End Final2.
+
+(* The callback-order clause on its own: no write callback after the shutdown
+   callback (every accepted write was submitted before uv_shutdown succeeded). *)
+Definition shutdown_cb_last (t : list event) : Prop :=
+  forall l1 l2 c, t = l1 ++ EShutCb c :: l2 -> cb_ids l2 = [].
+
+Theorem shutdown_cb_last_holds beh blk o sa pw ops :
+  shutdown_cb_last (trace (exec beh (init blk o sa pw) ops)).
+Proof.
+  intros l1 l2 c H. destruct (shutdown_last beh blk o sa pw ops) as (_ & _ & _ & X).
+  destruct (X c l1 l2 H) as [Y _]. exact Y.
+Qed.
+
+(* the input that refuted the clause before the repair of uv__stream_io *)
+Definition beh_refute (k : nat) : list op :=
+  match k with O => [OWrite [2]; OShutdown] | _ => [] end.
+
+(* ------------------------------------------------------------------ *)
+(* progress: a non-empty write queue is never left without a wake-up   *)
+(* ------------------------------------------------------------------ *)
+Definition Prog (s : st) : Prop :=
+  closing s = true \/ wq s = [] \/ armed s = true \/ fed s = true.
+
+Definition cl_mono (s s' : st) : Prop := closing s = true -> closing s' = true.
+
+Lemma write_loop_prog : forall fuel count s,
+  let s' := write_loop fuel count s in
+  wq s' = [] \/ armed s' = true \/ fed s' = true.
+Proof.
+  induction fuel as [|f IH]; intros count s; cbn [write_loop].
+  - cbn. auto.
+  - destruct (wq s) as [|r rest] eqn:Hq; [auto|].
+    destruct (sys_write (oracle s) (offered (skipn (r_widx r) (r_bufs r)))) as [res o'].
+    destruct res as [n| |c].
+    + destruct (req_done (req_update r n)).
+      * destruct count; [|apply IH]. cbn. auto.
+      * match goal with |- context [if ?b then _ else _] => destruct b end; [apply IH | cbn; auto].
+    + match goal with |- context [if ?b then _ else _] => destruct b end; [apply IH | cbn; auto].
+    + cbn. auto.
+Qed.
+
+Lemma uv_write_queue_prog s : Prog (uv_write_queue s) /\ cl_mono s (uv_write_queue s).
+Proof.
+  unfold uv_write_queue. split.
+  - right. apply write_loop_prog.
+  - destruct (write_loop_sim (write_fuel s) 32 s) as [_ F].
+    destruct F as (_ & _ & _ & _ & Fc & _). unfold cl_mono. congruence.
+Qed.
+
+Lemma Prog_same s s' :
+  closing s' = closing s -> wq s' = wq s -> armed s' = armed s -> fed s' = fed s -> Prog s -> Prog s'.
+Proof. unfold Prog. intros -> -> -> ->. auto. Qed.
+
+Lemma api_prog s o : Prog s -> Prog (api s o) /\ cl_mono s (api s o).
+Proof.
+  intros P. destruct o; cbn [api].
+  - unfold api_write.
+    set (s0 := ev (EWrite (next_id s) (sumN bufs)) (set_next_id (S (next_id s)) s)).
+    destruct (check_before_write s0).
+    + split; [apply (Prog_same s); auto | unfold cl_mono; auto].
+    + set (s1 := set_wq _ _).
+      destruct (wqs s0 =? 0).
+      * destruct (uv_write_queue_prog s1) as [A B]. split.
+        -- apply (Prog_same (uv_write_queue s1)); auto.
+        -- unfold cl_mono in *. intros H. apply B. exact H.
+      * split; [right; right; left; reflexivity | unfold cl_mono; auto].
+  - unfold api_try.
+    set (s0 := ev (ETry (next_id s) (sumN bufs)) (set_next_id (S (next_id s)) s)).
+    destruct (negb (wqs s0 =? 0)); [split; [apply (Prog_same s); auto | unfold cl_mono; auto]|].
+    destruct (check_before_write s0); [split; [apply (Prog_same s); auto | unfold cl_mono; auto]|].
+    destruct (sys_write (oracle s0) (offered bufs)) as [res o']. destruct res;
+      (split; [apply (Prog_same s); auto | unfold cl_mono; auto]).
+  - unfold api_shutdown.
+    destruct (negb (writable s) || shut s || shutreq s || closing s || closed s).
+    + split; [apply (Prog_same s); auto | unfold cl_mono; auto].
+    + cbn. destruct (wq s) eqn:Hq.
+      * split; [right; left; exact Hq | unfold cl_mono; auto].
+      * split; [apply (Prog_same s); auto | unfold cl_mono; auto].
+  - unfold api_close. destruct (closing s) eqn:Hc.
+    + split; [exact P | unfold cl_mono; auto].
+    + split; [left; reflexivity | unfold cl_mono; auto].
+  - split; [exact P | unfold cl_mono; auto].
+Qed.
+
+Lemma apis_prog os : forall s, Prog s -> Prog (apis s os) /\ cl_mono s (apis s os).
+Proof.
+  induction os as [|o os IH]; intros s P; cbn [apis].
+  - split; [exact P | unfold cl_mono; auto].
+  - destruct (api_prog s o P) as [A B]. destruct (IH _ A) as [C D].
+    split; auto. unfold cl_mono in *. auto.
+Qed.
+
+Section ProgCb.
+Variable beh : nat -> list op.
+
+Lemma run_cb_prog s : Prog s -> Prog (run_cb beh s) /\ cl_mono s (run_cb beh s).
+Proof.
+  intros P. unfold run_cb. apply (apis_prog _ (set_cbn (S (StreamWrite.cbn s)) s)).
+  apply (Prog_same s); auto.
+Qed.
+
+Lemma cb_loop_prog l : forall s, Prog s -> Prog (cb_loop beh l s) /\ cl_mono s (cb_loop beh l s).
+Proof.
+  induction l as [|r rest IH]; intros s P; cbn [cb_loop].
+  - split; [exact P | unfold cl_mono; auto].
+  - cbv zeta.
+    match goal with |- context [run_cb beh ?x] => set (s3 := x) end.
+    assert (P3 : Prog s3) by (unfold s3; destruct (r_freed r); apply (Prog_same s); auto).
+    assert (C3 : closing s3 = closing s) by (unfold s3; destruct (r_freed r); reflexivity).
+    destruct (run_cb_prog s3 P3) as [A B]. destruct (IH _ A) as [C D].
+    split; auto. unfold cl_mono in *. intros H. apply D, B. congruence.
+Qed.
+
+Lemma write_callbacks_prog s : Prog s -> Prog (write_callbacks beh s) /\ cl_mono s (write_callbacks beh s).
+Proof.
+  intros P. unfold write_callbacks. destruct (cq s) as [|r l].
+  - split; [exact P | unfold cl_mono; auto].
+  - apply (cb_loop_prog (r :: l) (set_pq (r :: l) (set_cq [] s))). apply (Prog_same s); auto.
+Qed.
+
+Lemma drain_prog s : wq s = [] \/ closing s = true -> Prog (drain beh s) /\ cl_mono s (drain beh s).
+Proof.
+  intros Hq. unfold drain.
+  set (s1 := if closing s then s else set_armed false s).
+  assert (P1 : Prog s1).
+  { unfold s1. destruct (closing s) eqn:Hc; [left; exact Hc|].
+    destruct Hq as [Hq|Hq]; [right; left; exact Hq | discriminate]. }
+  assert (C1 : closing s1 = closing s) by (unfold s1; destruct (closing s) eqn:Hcs; cbn; auto).
+  assert (M1 : cl_mono s s1) by (unfold cl_mono; congruence).
+  destruct (negb (shutreq s1)); [split; auto|].
+  destruct (closing s1 || negb (shut s1)); [|split; auto].
+  set (s2 := set_shutreq false s1).
+  assert (P2 : forall e, Prog (ev e s2)) by (intros e; apply (Prog_same s1); auto).
+  change (closing s2) with (closing s1).
+  destruct (closing s1) eqn:Hc1.
+  - destruct (run_cb_prog _ (P2 (EShutCb UV_ECANCELED))) as [A B]. split; auto.
+    unfold cl_mono in *. intros _. apply B. exact Hc1.
+  - set (s3 := ev (ESysShut (shutans s2)) s2). change (shutans s3) with (shutans s2).
+    destruct (shutans s2 =? 0)%Z.
+    + assert (P5 : Prog (ev (EShutCb 0%Z) (set_shut true s3))) by (apply (Prog_same s1); auto).
+      destruct (run_cb_prog _ P5) as [A B]. split; auto.
+      unfold cl_mono in *. intros H. congruence.
+    + assert (P5 : Prog (ev (EShutCb (shutans s2)) s3)) by (apply (Prog_same s1); auto).
+      destruct (run_cb_prog _ P5) as [A B]. split; auto.
+      unfold cl_mono in *. intros H. congruence.
+Qed.
+
+Lemma stream_io_prog s : Prog (stream_io beh s) /\ cl_mono s (stream_io beh s).
+Proof.
+  unfold stream_io. destruct (uv_write_queue_prog s) as [A B].
+  destruct (write_callbacks_prog _ A) as [C D].
+  set (s2 := write_callbacks beh (uv_write_queue s)) in *.
+  destruct (wq s2) eqn:Hq.
+  - destruct (drain_prog s2 (or_introl Hq)) as [E F]. split; auto. unfold cl_mono in *; auto.
+  - split; auto. unfold cl_mono in *; auto.
+Qed.
+
+Lemma destroy_prog s : closing s = true -> Prog (destroy beh s) /\ cl_mono s (destroy beh s).
+Proof.
+  intros Hc. unfold destroy.
+  set (s1 := flush (set_closed true s)).
+  assert (P1 : Prog s1) by (left; exact Hc).
+  destruct (write_callbacks_prog s1 P1) as [A B].
+  assert (C2 : closing (write_callbacks beh s1) = true) by (apply B; exact Hc).
+  destruct (drain_prog _ (or_intror C2)) as [E F]. split.
+  - apply (Prog_same (drain beh (write_callbacks beh s1))); auto.
+  - unfold cl_mono in *. intros _. cbn. auto.
+Qed.
+
+Lemma run_pending_prog s : Prog s -> Prog (run_pending beh s) /\ cl_mono s (run_pending beh s).
+Proof.
+  intros P. unfold run_pending. destruct (fed s).
+  - apply (stream_io_prog (set_fed false s)).
+  - split; [exact P | unfold cl_mono; auto].
+Qed.
+
+Lemma pending_rounds_prog k : forall s, Prog s ->
+  Prog (pending_rounds beh k s) /\ cl_mono s (pending_rounds beh k s).
+Proof.
+  induction k as [|k IH]; intros s P; cbn [pending_rounds].
+  - split; [exact P | unfold cl_mono; auto].
+  - destruct (fed s) eqn:Hf.
+    + destruct (run_pending_prog s P) as [A B]. destruct (IH _ A) as [C D].
+      split; auto. unfold cl_mono in *; auto.
+    + split; [exact P | unfold cl_mono; auto].
+Qed.
+
+Lemma run_iter_prog s : Prog s -> Prog (run_iter beh s).
+Proof.
+  intros P. unfold run_iter.
+  destruct (run_pending_prog s P) as [A _].
+  set (s1 := run_pending beh s) in *.
+  set (s1' := set_pollw (tl (pollw s1)) s1).
+  assert (P1 : Prog s1') by (apply (Prog_same s1); auto).
+  match goal with |- context [if armed s1' && ?w then _ else _] => set (b := armed s1' && w) end.
+  assert (P2 : Prog (if b then stream_io beh s1' else s1')).
+  { destruct b; auto. apply stream_io_prog. }
+  destruct (pending_rounds_prog 8 _ P2) as [P3 _].
+  match goal with |- context [if closing ?x && _ then _ else _] => set (s3 := x) in * end.
+  destruct (closing s3 && negb (closed s3)) eqn:Hc; auto.
+  apply andb_prop in Hc. destruct Hc as [Hc _]. apply destroy_prog; auto.
+Qed.
+
+Lemma step_prog s o : Prog s -> Prog (step beh s o).
+Proof.
+  intros P. unfold step. apply (Prog_same (match o with ORun => run_iter beh s | _ => api s o end)); auto.
+  destruct o; try (apply api_prog; auto). apply run_iter_prog; auto.
+Qed.
+
+Lemma exec_prog os : forall s, Prog s -> Prog (exec beh s os).
+Proof.
+  induction os as [|o os IH]; intros s P; cbn [exec]; auto. apply IH, step_prog, P.
+Qed.
+
+End ProgCb.
+
+(* C05_progress *)
+Theorem progress beh blk o sa pw ops :
+  let s := exec beh (init blk o sa pw) ops in
+  wq s <> [] -> closing s = false -> armed s = true \/ fed s = true.
+Proof.
+  intros s Hq Hc.
+  assert (P : Prog s) by (apply exec_prog; right; left; reflexivity).
+  destruct P as [P|[P|P]]; [congruence | contradiction | exact P].
 Qed.
